@@ -30,6 +30,9 @@ ASSUMPTIONS = [
 ]
 
 
+PAYLOAD_FORMS = ("data", "None if data is None else bytearray(data)", "bytearray(data)", "bytes(data)", "None if data is None else bytes(data)")
+
+
 def run(chk):
     repo, folder = ctx(chk)
     net = repo.mod(NET, "C10")
@@ -155,7 +158,7 @@ def run(chk):
         ext = kw.get("is_extended_id")
         chk.check(ext is not None and ff.is_form(ext, "can_id > 0x7FF", "can_id >= 0x800"), "R4", f"{NET}:{f.qualname} | extended format rule", f.loc(c),
                   f"is_extended_id = {src(ext) if ext is not None else 'missing'}; must be exactly `can_id > 0x7FF`")
-        chk.check(src(kw.get("arbitration_id", ast.Constant(None))) == "can_id" and src(kw.get("data", ast.Constant(None))) == "data"
+        chk.check(src(kw.get("arbitration_id", ast.Constant(None))) == "can_id" and src(kw.get("data", ast.Constant(None))) in PAYLOAD_FORMS
                   and src(kw.get("is_remote_frame", ast.Constant(None))) == "remote" and not c.args, "R4", f"{NET}:{f.qualname} | id, data, remote", f.loc(c),
                   f"message built from { {k: src(v) for k, v in kw.items()} }")
     sm = repo.func(NET, "Network.send_message", "C10.R4")
